@@ -348,6 +348,19 @@ def run_actions(actions, phase, ctx):
                  if ORIG_STDOUT is not None else None,
                  err_is_orig=(sys.stderr is ORIG_STDERR)
                  if ORIG_STDERR is not None else None)
+        elif do == 'spawn_helper':
+            # a helper process that inherits the real stderr (not stdout)
+            # and outlives the layer subprocess: the parent sees the end of
+            # the child's stderr only when the helper is gone.  Only inside
+            # processes the runner spawned.
+            if '--resume-layer' in sys.argv:
+                import subprocess
+                subprocess.Popen(
+                    [sys.executable, '-S', '-c',
+                     'import time; time.sleep(%r)' % float(a.get('s', 12))],
+                    stdin=subprocess.DEVNULL, stdout=subprocess.DEVNULL,
+                    env={}, close_fds=True)
+                emit('helper.spawned', ctx=ctx, s=a.get('s', 12))
         elif do == 'drop_sys_path':
             # a test that cleans sys.path of everything below the world
             # (tests that juggle sys.path and do not put it back)
